@@ -89,3 +89,34 @@ class Result(dict):
 
 def bump(d, key, n=1):
     d[key] = d.get(key, 0) + n
+
+
+_KNOWN_CACHE = {}
+
+
+def known_open(prop):
+    """Open entries of the committed KNOWN_FINDINGS.json for a property: {id: entry}."""
+    if prop not in _KNOWN_CACHE:
+        p = os.path.join(VERIF_DIR, 'KNOWN_FINDINGS.json')
+        out = {}
+        if os.path.exists(p):
+            with open(p) as f:
+                for e in json.load(f).get('findings', []):
+                    if e.get('property') == prop and e.get('status') == 'open':
+                        out[e['id']] = e
+        _KNOWN_CACHE[prop] = out
+    return _KNOWN_CACHE[prop]
+
+
+def settle(res, v, known_id=None):
+    """Record a Violation in a Result, as a known finding when the committed list names it."""
+    prop = res.get('prop')
+    if known_id and known_id in known_open(prop):
+        res['verdict'] = 'known'
+        res['known'] = known_id
+    else:
+        res['verdict'] = 'violation'
+    res['invariant'] = v.invariant
+    res['detail'] = v.detail
+    res['step'] = v.step
+    return res
